@@ -60,6 +60,11 @@ end
 
 def requireWithMetadata (name : String) (mdata : Table) : Req := ⟨name, privDtKVs mdata⟩
 
+/-- `Require::new(name)` followed by any number of `metadata(table)` calls (`self.metadata = table`: each call replaces
+the table; none leaves `Table::new()`, which is also what `requires("name")` through `From<S>` gives) -/
+def requireSeq (name : String) (tables : List Table) : Req :=
+  tables.foldl (fun r t => ⟨r.name, privDtKVs t⟩) ⟨name, []⟩
+
 mutual
 /-- no datetime anywhere in the value -/
 def noDt : TV → Bool
@@ -106,6 +111,57 @@ def launchStep (l : Launch) : LaunchOp → Launch
   | .slice ps => { l with slices := l.slices ++ [ps] }
 
 def buildLaunch (ops : List LaunchOp) : Launch := ops.foldl launchStep ⟨[], [], []⟩
+
+/-! ## `build()` inside a call sequence (the non-consuming builders `ProcessBuilder`, `LaunchBuilder`)
+
+`pub fn build(&self) -> T { self.t.clone() }`: `build` only reads the builder, so it may be called at any point of a call
+sequence and any number of times; the builder goes on in the state it had. (`BuildPlanBuilder::build(self)` consumes the
+builder — no call can follow it — so its model stays `buildPlan`: one `build` at the end.) -/
+
+/-- one entry of a call sequence on a non-consuming builder: a `&mut self` call, or `build()` -/
+inductive SeqOp (α : Type) where
+  | call (op : α)
+  | build
+deriving Repr, Inhabited
+
+/-- runs a call sequence on a builder in state `s` and returns what its `build()` calls returned, in call order.
+`build` is an observation: the state after it is the state before it. -/
+def runSeq {σ α β : Type} (step : σ → α → σ) (build : σ → β) : σ → List (SeqOp α) → List β
+  | _, [] => []
+  | s, .call op :: rest => runSeq step build (step s op) rest
+  | s, .build :: rest => build s :: runSeq step build s rest
+
+/-- one `ProcessBuilder`: `new(type, command)`, the calls with `build()` anywhere between them, and a `build()` at the
+end; every `Process` built, in order -/
+def procSession (type : String) (command : List String) (ops : List (SeqOp ProcOp)) : List Proc :=
+  runSeq procStep (fun p => p) (procNew type command) (ops ++ [.build])
+
+/-- the whole surface of `LaunchBuilder`: the singular calls, the plural ones (`processes` / `labels` / `slices`: a loop
+over the singular call), and a `ProcessBuilder` whose every built `Process` is handed to `process(..)` -/
+inductive LaunchOpX where
+  | session (type : String) (command : List String) (ops : List (SeqOp ProcOp))
+  | processes (ps : List (String × List String × List ProcOp))
+  | label (key value : String)
+  | labels (kvs : List (String × String))
+  | slice (paths : List String)
+  | slices (pss : List (List String))
+deriving Repr, Inhabited
+
+/-- `fn process(&mut self, p)`: `self.launch.processes.push(p)` -/
+def launchPush (l : Launch) (p : Proc) : Launch := { l with processes := l.processes ++ [p] }
+
+def launchStepX (l : Launch) : LaunchOpX → Launch
+  | .session t c ops => (procSession t c ops).foldl launchPush l
+  | .processes ps => ps.foldl (fun l p => launchStep l (.process p.1 p.2.1 p.2.2)) l
+  | .label k v => launchStep l (.label k v)
+  | .labels kvs => kvs.foldl (fun l kv => launchStep l (.label kv.1 kv.2)) l
+  | .slice ps => launchStep l (.slice ps)
+  | .slices pss => pss.foldl (fun l ps => launchStep l (.slice ps)) l
+
+/-- one `LaunchBuilder`: `new()`, the calls with `build()` anywhere between them, and a `build()` at the end; every
+`Launch` built, in order -/
+def launchSession (ops : List (SeqOp LaunchOpX)) : List Launch :=
+  runSeq launchStepX (fun l => l) ⟨[], [], []⟩ (ops ++ [.build])
 
 /-! ## ExecDProgramOutput: pairs collected into a map — a later pair with the same key replaces the earlier one -/
 
